@@ -102,12 +102,23 @@ func (o mapObj) Delete(v int)             { o.s.Delete(v) }
 func (o mapObj) Has(v int) bool           { return o.s.Has(v) }
 func (o mapObj) Len() int                 { return o.s.Len() }
 func (o mapObj) Range(f func(v int) bool) { o.s.Range(f) }
-func (o mapObj) Values() []int            { return o.s.Values() }
-func (o mapObj) isNil() bool              { return o.s == nil }
-func (o mapObj) clone() setAPI            { return mapObj{o.s.Clone()} }
-func (o mapObj) equal(x setAPI) bool      { return o.s.Equal(x.(mapObj).s) }
-func (o mapObj) kind() string             { return "MapSet" }
-func (o mapObj) sorted() bool             { return false }
+func (o mapObj) Values() []int {
+	// MapSet.Values hands out a slice of the caller's own (unlike
+	// SortedSliceSet.Values, "values must not be modified"): the caller may do
+	// with it what it likes, and does.
+	vals := o.s.Values()
+	out := slices.Clone(vals)
+	for i := range vals {
+		vals[i] = -7777
+	}
+
+	return out
+}
+func (o mapObj) isNil() bool         { return o.s == nil }
+func (o mapObj) clone() setAPI       { return mapObj{o.s.Clone()} }
+func (o mapObj) equal(x setAPI) bool { return o.s.Equal(x.(mapObj).s) }
+func (o mapObj) kind() string        { return "MapSet" }
+func (o mapObj) sorted() bool        { return false }
 
 type sortedObj struct {
 	s *container.SortedSliceSet[int]
@@ -209,6 +220,11 @@ func (o mapFloatObj) Values() []int {
 	if vals == nil {
 		return nil
 	}
+	defer func() {
+		for i := range vals {
+			vals[i] = -7777 // the slice is the caller's, see mapObj.Values
+		}
+	}()
 	out := make([]int, 0, len(vals))
 	nans := 0
 	for _, x := range vals {
